@@ -74,7 +74,7 @@ PLANS = {
     "C16": [job("inject_big", "native", 2, [], budget={"quick": 150000, "thorough": 600000}, budget_arg="n", reports_to=MEM), job("inject", "native", 12, [], budget={"quick": 40000, "thorough": 1500000}, budget_arg="cases", reports_to=MEM),
             job("inject", "asan", 4, ["--markers", "1"], budget={"quick": 15000, "thorough": 400000}, budget_arg="cases", reports_to=MEM, asan_options=ASAN_NOLEAK),
             job("inject", "miri", 16, ["--markers", "1", "--further-min", "2", "--further-max", "5"], budget={"quick": 25, "thorough": 300}, budget_arg="cases", reports_to=MEM, miri_flags=LEAK_OK_MIRI + " -Zmiri-disable-stacked-borrows")],
-    "C17": [enum_iter("native", 8, 6, True, random=300, extra=1, tiers=("quick",)), enum_iter("native", 16, 9, True, random=3000, extra=1, tiers=("thorough",)),
+    "C17": [job("typevar", "native", 1, [], budget={"quick": 300000, "thorough": 5000000}), enum_iter("native", 8, 6, True, random=300, extra=1, tiers=("quick",)), enum_iter("native", 16, 9, True, random=3000, extra=1, tiers=("thorough",)),
             enum_iter("asan", 4, 5, True, extra=1, tiers=("quick",), asan_options=ASAN_NOLEAK), enum_iter("asan", 12, 7, True, extra=1, random=1000, tiers=("thorough",), asan_options=ASAN_NOLEAK),
             enum_iter("miri", 16, 2, True, extra=1, bare=True, tiers=("quick",), miri_flags=LEAK_OK_MIRI), enum_iter("miri", 16, 4, True, extra=1, bare=True, tiers=("thorough",), miri_flags=LEAK_OK_MIRI)],
     "C18": [job("neg_compile", "native", 1, [], neg_compile=True, prop="C18"), job("autotraits", "native", 1, []), job("exercise", "native", 1, [], bin="lruverif_c18", compile_verdict=True),
